@@ -53,7 +53,7 @@ META = {
     "assumptions": ["generator bounds: rotation angle <= 4*pi, |log-scale| <= 8, finite inputs",
                     "relative error of the rotation block is measured against 1 (unit quaternion / orthogonal matrix), of the "
                     "scale block against e^sigma, of the translation block against |tau|_inf * (e^sigma-1)/sigma"],
-    "partial": ["rounding (reduced in pass 3 to four per-call accuracies gamma_q, gamma_s, gamma_t, gamma_M that are measured on every sampled case; theorems rounded_so3Exp / rounded_sim3Exp turn them into the entrywise bound for every input): the clause 'relative error at most k*eps / k*sqrt(eps)' is decided as theorem over the reals (51 theorems: "
+    "partial": ["rounding (reduced in pass 3 to four per-call accuracies gamma_q, gamma_s, gamma_t, gamma_M that are measured on every sampled case; theorems rounded_so3Exp / rounded_sim3Exp turn them into the entrywise bound for every input): the clause 'relative error at most k*eps / k*sqrt(eps)' is decided as theorem over the reals (53 theorems: "
                 "matrix(Exp x) = exp(generator) in every exact regime of all four types, entrywise bounds <= 9*eps*e^|sigma|*(1+|tau|_1) "
                 "for every input) + measured agreement of the float code with the 192-bit model and with mpmath on the generated inputs"],
 }
@@ -431,7 +431,7 @@ K_GQ, K_GS, K_GM = 16.0, 16.0, 8.0
 
 
 def measure_rounded(ctx: Ctx, reps, metas):
-    """the hypotheses of the rounded-arithmetic theorems (`rounded_so3Exp`, `rounded_sim3Exp`), measured on every sampled
+    """the hypotheses of the rounded-arithmetic theorems (`rounded_so3Exp`, `rounded_se3Exp`, `rounded_rxso3Exp`, `rounded_sim3Exp`), measured on every sampled
     case: gamma_q = componentwise distance of the stored quaternion to the model's (up to the overall sign), gamma_s = relative
     distance of the stored scale, gamma_t = distance of the stored translation, gamma_M = distance of the stored matrix to the
     EXACT matrix of the STORED element (model `matrix` in 192 bits on the stored floats: the rounding of `matrix()` alone)."""
@@ -781,6 +781,9 @@ def copies_probe(ctx: Ctx):
                         gm, wm = o.matrix(), ref.matrix()
                         ctx.note_case(("copies", name, dtype, label, step), True)
                         ctx.count("copies")
+                        if not (bool(torch.isfinite(got).all()) and bool(torch.isfinite(gm).all())):
+                            ctx.fail(case | {"step": step, "read": label, "x": torch.Tensor.as_subclass(o, torch.Tensor).detach().double().tolist()},
+                                     f"nonfinite: Exp/matrix of the {label} of a {U.ALG[name]} LieTensor is not finite (step {step}, {dtype})")
                         if not (torch.equal(torch.nan_to_num(got), torch.nan_to_num(want)) and torch.equal(torch.nan_to_num(gm), torch.nan_to_num(wm))):
                             ctx.fail(case | {"step": step, "updated": who, "read": label},
                                      f"copies: Exp/matrix of the {label} of a {U.ALG[name]} LieTensor after updating the {who} in place "
@@ -849,6 +852,12 @@ def run_large(ctx: Ctx, configs):
                 ctx.fail(case, f"type: Exp/matrix of a {U.ALG[name]} batch of shape {tuple(shape)} returned {tuple(T.shape)} / {tuple(M.shape)}")
                 continue
             Tf, Mf = T.reshape(n, g), M.reshape(n, m * m)
+            nf = (~torch.isfinite(Tf)).any(dim=1) | (~torch.isfinite(Mf)).any(dim=1)
+            if bool(nf.any()):      # a non-finite result for a finite input fails by itself (and would compare "equal" to itself below)
+                i = int(nf.nonzero()[0])
+                xi = rows[i].double().tolist()
+                ctx.fail(case | {"item": i, "x": xi}, f"nonfinite: item {i} of a {U.ALG[name]} batch of {n} ({dtype}): Exp/matrix is not finite; x = {xi}")
+                continue
             ctx.note_case(("large", name, dtype, tuple(shape)), True)
             ctx.count(f"large.{U.ALG[name]}.{dtype}.n={n}")
             bad = None
@@ -1132,7 +1141,11 @@ def interleave_probe(ctx: Ctx, lines, metas):
                 X1 = P.LieTensor(single, ltype=lt_).Exp()
                 return [X.tensor().clone(), X.matrix().clone(), X1.matrix().clone()]
             try:
-                refs[(name, dtype)] = (ev, ev(), r64)
+                first = ev()
+                if not all(bool(torch.isfinite(t_).all()) for t_ in first):
+                    ctx.fail({"stream": "interleave", "type": name, "dtype": dtype, "X": r64},
+                             f"nonfinite: Exp/matrix of a finite {U.ALG[name]} {dtype} batch is not finite; x = {r64}")
+                refs[(name, dtype)] = (ev, first, r64)
             except Exception as ex:
                 ctx.fail({"stream": "interleave", "type": name, "dtype": dtype, "X": r64},
                          f"raises: Exp/matrix on {U.ALG[name]} {dtype} raised {type(ex).__name__}: {str(ex)[:140]}")
@@ -1269,6 +1282,11 @@ def mode_order_probe(ctx: Ctx):
                                                      f"grad-mode order {order}: {str(ex)[:120]}")
                         break
                     out = out.detach().clone()
+                    if not bool(torch.isfinite(out).all()):
+                        i = int((~torch.isfinite(out)).any(dim=-1).nonzero()[0])
+                        ctx.fail(case | {"call": k, "x": rows[i]}, f"nonfinite: Exp({U.ALG[name]}, batch {n}, {dtype}) in call {k} ({md}) is not finite at "
+                                                                  f"item {i}; x = {rows[i]}")
+                        break
                     ctx.count(f"mode-order.{md}")
                     ctx.note_case(("mode-order", name, dtype, n, k), True)
                     if ref is None:
@@ -1323,6 +1341,8 @@ def run_scatter(ctx: Ctx, n_batches):
             csc = abs(math.expm1(sg) / sg) if sg != 0 else 1.0
             dw = max(abs(a - b) for a, b in zip(W[i], mw[9 * i:9 * i + 9]))
             bad = {}
+            if not all(math.isfinite(v) for v in Q[i] + W[i]):     # NaN polarity: python max() may drop a NaN — test finiteness first
+                bad["nonfinite"] = "inf"
             if not dq <= K_ROT * e:
                 bad["q"] = dq / (K_ROT * e)
             if not dw <= K_TRANS * math.sqrt(e) * csc:
